@@ -36,7 +36,14 @@ def fieldOfJson (j : Json) : Except String FieldSpec := do
          fastOk := boolField j "fastOk",
          trustedOk := boolField j "trustedOk",
          schemaOk := boolField j "schemaOk",
-         inlines := (← (← j.getObjVal? "inlines").getNat?) }
+         inlines := (← (← j.getObjVal? "inlines").getNat?),
+         arr := boolField j "arr",
+         optional := boolField j "optional",
+         subKeys := (match optField j "subKeys" with
+           | some (.arr a) => a.toList.filterMap fun kv => match kv with
+             | .arr #[.str k, .str v] => some (k, v)
+             | _ => none
+           | _ => []) }
 
 def parentOfJson (j : Json) : Except String Parent := do
   let c ← (← j.getObjVal? "c").getNat?
@@ -72,16 +79,34 @@ def argOfJson (j : Json) : Except String Arg := do
   if let some x := optField j "inst" then return .inst (← x.getNat?)
   if let some x := optField j "struct" then return .struct (← x.getNat?)
   if let some x := optField j "structs" then return .structs (← (← x.getArr?).toList.mapM (·.getNat?))
+  if let some _ := optField j "noItems" then return .noItems
   throw s!"arg {j.compress}"
+
+def kwList (x : Json) : Except String (List (String × Arg)) := do
+  (← x.getArr?).toList.mapM fun kv => do
+    let a ← kv.getArr?
+    if a.size != 2 then throw "kw entry"
+    pure ((← a[0]!.getStr?), (← argOfJson a[1]!))
 
 def kwArgs (j : Json) : Except String (List (String × Arg)) :=
   match optField j "kw" with
   | none => pure []
+  | some x => kwList x
+
+/-- the instances the harness builds for the arguments of an operation, innermost first: `[[class, kw], …]` -/
+def preOps (j : Json) : Except String (List WorldOp) :=
+  match optField j "pre" with
+  | none => pure []
   | some x => do
-    (← x.getArr?).toList.mapM fun kv => do
-      let a ← kv.getArr?
-      if a.size != 2 then throw "kw entry"
-      pure ((← a[0]!.getStr?), (← argOfJson a[1]!))
+    (← x.getArr?).toList.mapM fun p => do
+      let a ← p.getArr?
+      if a.size != 2 then throw "pre entry"
+      pure (.construct (← a[0]!.getNat?) (← kwList a[1]!))
+
+def flagsOfJson (j : Json) : SerFlags :=
+  match optField j "flags" with
+  | some f => ⟨boolField f "serialize_none", boolField f "compact"⟩
+  | none => .plain
 
 /-- one harness operation = one or two model operations (the harness's `deserialize` builds an
     instance, serializes it and deserializes the document) -/
@@ -93,15 +118,16 @@ def opOfJson (j : Json) : Except String (List WorldOp) := do
   | _ =>
     let c ← (← j.getObjVal? "c").getNat?
     let kw ← kwArgs j
+    let pre ← preOps j
     match op with
     | "define" => pure [.define c (← srcOfJson (← j.getObjVal? "src"))]
-    | "construct" => pure [.construct c kw]
-    | "serialize" => pure [.serialize c kw (boolField j "camel")]
-    | "deserialize" => pure [.serialize c kw (boolField j "camel"), .deserialize c kw]
+    | "construct" => pure (pre ++ [.construct c kw])
+    | "serialize" => pure (pre ++ [.serialize c kw (boolField j "camel")])
+    | "deserialize" => pure (pre ++ [.serialize c kw (boolField j "camel"), .deserialize c kw])
     | "toSchema" => pure [.toSchema c]
     | "schemaCode" => pure [.toSchema c]     -- structure_to_schema followed by schema_to_struct_code of the result
-    | "createSerializer" => pure [.createSerializer c]
-    | "trusted" => pure [.serialize c kw false, .trustedDeserialize c kw]
+    | "createSerializer" => pure [.createSerializer c (flagsOfJson j)]
+    | "trusted" => pure (pre ++ [.serialize c kw false, .trustedDeserialize c kw])
     | s => throw s!"op {s}"
 
 def strs (xs : List String) : Json := Json.arr (xs.map Json.str).toArray
@@ -111,11 +137,53 @@ def wrapsJson (fs : List FieldSpec) : Json :=
     | .wrap _ t => some (f.name, Json.num (Lean.JsonNumber.fromNat t))
     | _ => none)
 
+/-- the classes that have their own generated serializer (`"serialize" in cls.__dict__`) -/
+def sersJson (w : World) : Json :=
+  let ids := (w.classes.map (·.1)).eraseDups
+  Json.arr ((ids.filter fun c => match alookup c w.classes with
+    | some e => e.serializer.isSome
+    | none => false).map fun c => Json.num (Lean.JsonNumber.fromNat c)).toArray
+
+/-- shape of the document `x.serialize()` returns for an instance of FastSerializable class `c` built from the
+    fields `present` (nested instances are complete), computed from the VIEWS: the class's own serializer (keys,
+    flags) and, per reference, the serializer its referenced class's instances are serialized with -/
+def docJson (w : World) : Nat → ClassId → Option (List String) → Json
+  | 0, _, _ => Json.str "?"
+  | n + 1, c, present =>
+    match view cfg w c with
+    | none => Json.str "?"
+    | some b =>
+      match b.fastSer with
+      | none => Json.str "slow"
+      | some s =>
+        if b.fields.length ≤ 1 then Json.str "?" else     -- a one-field class may serialize to the bare value
+        let items := (b.fields.zip s.keys).filterMap fun (f, key) =>
+          let here := match present with
+            | none => true
+            | some ps => ps.contains f.name || f.hasDefault
+          let v : Json :=
+            if !here then Json.null
+            else match f.kind with
+              | .ref r =>
+                if f.arr then
+                  (if present.isSome && !f.hasDefault && (match present with | some ps => ps.contains (f.name ++ "[]") | none => false)
+                   then Json.arr #[] else Json.arr #[docJson w n r none])
+                else docJson w n r none
+              | _ => Json.str "v"
+          if v.isNull && !s.flags.serNone then none else some (key, v)
+        Json.mkObj items
+
 /-- per-step observation; for `define` also the resolved implicit wrappers of the new class -/
-def stepJson (w' : World) (op : WorldOp) (o : Obs) : Json :=
+def stepJson (w0 w' : World) (op : WorldOp) (o : Obs) : Json :=
   let base := [("done", Json.bool o.done), ("accepted", Json.bool o.accepted), ("keys", strs o.keys), ("wrote", Json.bool o.wrote),
-               ("clash", Json.bool o.clash)]
+               ("clash", Json.bool o.clash), ("sers", sersJson w')]
   match op with
+  | .serialize c kw _ =>
+    let present := (kw.map fun p => match p.2 with | .noItems => p.1 ++ "[]" | _ => p.1) ++ (kw.map (·.1))
+    Json.mkObj (base ++ [("doc", docJson w' (w'.classes.length + 1) c (some present)),
+                         ("instantiable", Json.bool ((view cfg w0 c).map (·.instantiable) |>.getD false))])
+  | .construct c _ =>
+    Json.mkObj (base ++ [("instantiable", Json.bool ((view cfg w0 c).map (·.instantiable) |>.getD false))])
   | .define c _ =>
     let wr := match alookup c w'.classes with
       | some e => wrapsJson e.core.fields
@@ -131,7 +199,7 @@ def stepJson (w' : World) (op : WorldOp) (o : Obs) : Json :=
 /-- run the model operations of one harness operation; report the last one's observation -/
 def runGroup : World → List WorldOp → World × Option Json
   | w, [] => (w, none)
-  | w, [op] => let r := stepW cfg w op; (r.1, some (stepJson r.1 op r.2))
+  | w, [op] => let r := stepW cfg w op; (r.1, some (stepJson w r.1 op r.2))
   | w, op :: rest => runGroup (stepW cfg w op).1 rest
 
 def runSteps : World → List (List WorldOp) → World × List Json
@@ -149,7 +217,8 @@ def causes (a b : Option Behaviour) : List String :=
     (if x.required != y.required || x.sigRequired != y.sigRequired then ["required-written"] else []) ++
     (if x.schemaRequired != y.schemaRequired then ["schema-required"] else []) ++
     (if x.serMapper != y.serMapper || x.serMapperCamel != y.serMapperCamel then ["mapper-cache"] else []) ++
-    (if x.fastKeys != y.fastKeys then ["serializer-install"] else []) ++
+    (if x.fastSer != y.fastSer || x.refSers != y.refSers then ["serializer-install"] else []) ++
+    (if x.instantiable != y.instantiable then ["instantiable"] else []) ++
     (if x.trusted != y.trusted then ["simplicity-cache"] else []) ++
     (if x.kwargs != y.kwargs || x.extras != y.extras || x.compact != y.compact || x.failFast != y.failFast
      then ["flags"] else [])
